@@ -12,7 +12,7 @@
 EXTENDS TransmitterOps
 
 CONSTANTS Grid, Cand, Mandatory, MaxOpt, Lats, Folds, Modes, Delays, EpLens, ResetLens, Spaces, Bads, DayLen, MaxCalls, ResetAnywhere,
-          ClockRule, HistoryOrder, NullRule,
+          ClockRule, HistoryOrder, NullRule, StartStride,
           Cuts          \* set of cut times
 
 VARIABLES cfgA, envA, elogA, execsA, retA, histA, ncallsA,
